@@ -9,10 +9,12 @@ import (
 	"bufio"
 	"encoding/json"
 	"fmt"
+	"github.com/tencent/goom/zzverif/gate"
 	"os"
 	"sort"
 	"strings"
 	"sync/atomic"
+	"syscall"
 	"testing"
 	"time"
 
@@ -167,6 +169,18 @@ func TestVerifReplay(t *testing.T) {
 	bw := bufio.NewWriter(of)
 	defer bw.Flush()
 	enc := json.NewEncoder(bw)
+	// VERIF_NOMMAP=1: executable mappings are refused for this whole process (interface stubs must come from goom's built-in
+	// reserve); if that cannot be arranged here the run reports it instead of replaying under the wrong conditions
+	if os.Getenv("VERIF_NOMMAP") == "1" {
+		if err := gate.DenyExecMmap(); err != nil {
+			enc.Encode(map[string]interface{}{"summary": true, "behaviours": 0, "runs": 0, "mismatches": 0, "worlds": len(ws), "nommap": "unavailable: " + err.Error()})
+			return
+		}
+		if _, err := syscall.Mmap(-1, 0, 4096, syscall.PROT_READ|syscall.PROT_WRITE|syscall.PROT_EXEC, syscall.MAP_PRIVATE|syscall.MAP_ANON); err == nil {
+			enc.Encode(map[string]interface{}{"summary": true, "behaviours": 0, "runs": 0, "mismatches": 0, "worlds": len(ws), "nommap": "unavailable: the filter did not take effect"})
+			return
+		}
+	}
 	sc := bufio.NewScanner(f)
 	sc.Buffer(make([]byte, 1<<20), 1<<26)
 	nb, nrun, nmm := 0, 0, 0
